@@ -100,10 +100,18 @@ func c03Receiver(which int) *secp256k1.Element {
 }
 
 // c03Case presents b to decoder di (5 = DecodeCoordinates on b[1:33], b[33:65]) with receiver `which`.
-func c03Case(di int, b []byte, which int) (key, detail, class string) {
+//
+// scratch, when non-nil, is a long-lived caller buffer that the input is written into before the call (the caller
+// "reuses its read buffer"): consecutive calls then see the same backing array with different contents, so a
+// decoder that remembers anything by slice identity would return stale results.
+func c03Case(di int, b []byte, which int, scratch []byte) (key, detail, class string) {
 	e := c03Receiver(which)
 	before := rawOf(e)
 	in := append([]byte{}, b...)
+
+	if scratch != nil && len(b) <= len(scratch) {
+		in = scratch[:copy(scratch, b)]
+	}
 
 	var (
 		err  error
@@ -328,7 +336,12 @@ func C03real(r *ev.Report) {
 	r.Bound("strings", len(strs))
 	r.States.Add(int64(len(strs)))
 
-	r.ParFor(len(strs), func(_, i int) {
+	scratch := make([][]byte, ev.Workers()+1)
+	for i := range scratch {
+		scratch[i] = make([]byte, 96)
+	}
+
+	r.ParFor(len(strs), func(w, i int) {
 		b := strs[i]
 		nd := len(elemDecoders)
 
@@ -343,7 +356,12 @@ func C03real(r *ev.Report) {
 				r.Transitions.Add(1)
 				r.Evals.Add(1)
 
-				key, detail, class := c03Case(di, b, which)
+				var sc []byte
+				if which == 1 {
+					sc = scratch[w]
+				}
+
+				key, detail, class := c03Case(di, b, which, sc)
 				if which == 0 && (di == 0 || di == 5) {
 					counts[fmt.Sprintf("d%d_%s", di, class)]++
 				}
@@ -395,7 +413,7 @@ func init() {
 
 		var di int
 		fmt.Sscan(c["decoder"], &di)
-		key, detail, _ := c03Case(di, unhb(c["input"]), which)
+		key, detail, _ := c03Case(di, unhb(c["input"]), which, nil)
 
 		return key == "", key + " " + detail
 	}
